@@ -236,6 +236,33 @@ def propsFn (p : Option ND) (_dim : Nat) : Nat → Nat → Rat :=
   | some M => fun i j => M.get [i, j]
   | none => fun i j => if i = j then 1 else 0      -- `if admix_props is None:` default of the 3-D/4-D functions
 
+/-- one semi-analytic operator per axis (pointwise definition / tabulated version run by the driver) -/
+def linalgOps (ns : List Nat) (grids : List (Array Rat)) : List LineOp :=
+  (List.range grids.length).map fun a => analyticOp a (ns.getD a 0) (grids.getD a #[]).size (gridFn (grids.getD a #[]))
+
+def linalgOpsFast (ns : List Nat) (grids : List (Array Rat)) : List LineOp :=
+  (List.range grids.length).map fun a => analyticOpFast a (ns.getD a 0) (grids.getD a #[]).size (gridFn (grids.getD a #[]))
+
+/-- one direct (trapezoid) operator per axis; `het` switches the ascertainment multiplier on for the axis it names -/
+def directOps (het : String) (ns : List Nat) (grids : List (Array Rat)) : List LineOp :=
+  (List.range grids.length).map fun a =>
+    directOp grids.length a (ns.getD a 0) (grids.getD a #[]).size (het == hetKey grids.length a) (gridFn (grids.getD a #[]))
+
+def directOpsFast (het : String) (ns : List Nat) (grids : List (Array Rat)) : List LineOp :=
+  (List.range grids.length).map fun a =>
+    directOpFast grids.length a (ns.getD a 0) (grids.getD a #[]).size (het == hetKey grids.length a) (gridFn (grids.getD a #[]))
+
+/-- one inbreeding operator per axis (`Fs` already clamped) -/
+def inbOps (het : String) (ns : List Nat) (grids : List (Array Rat)) (Fs : List Rat) (ploidys : List Nat) : List LineOp :=
+  (List.range grids.length).map fun a =>
+    inbOp grids.length a (ns.getD a 0) (ploidys.getD a 1) (grids.getD a #[]).size (inbFClamp (Fs.getD a 0))
+      (het == inbHetKey grids.length a) (gridFn (grids.getD a #[]))
+
+def inbOpsFast (het : String) (ns : List Nat) (grids : List (Array Rat)) (Fs : List Rat) (ploidys : List Nat) : List LineOp :=
+  (List.range grids.length).map fun a =>
+    inbOpFast grids.length a (ns.getD a 0) (ploidys.getD a 1) (grids.getD a #[]).size (inbFClamp (Fs.getD a 0))
+      (het == inbHetKey grids.length a) (gridFn (grids.getD a #[]))
+
 /-- the private integration functions by name -/
 def runPath (fname : String) (het : String) (ns : List Nat) (grids : List (Array Rat)) (p : Option ND) (T : ND) :
     Except String ND :=
@@ -244,10 +271,9 @@ def runPath (fname : String) (het : String) (ns : List Nat) (grids : List (Array
   let gOf := fun a => grids.getD a #[]
   let linalg : Unit → Except String ND := fun _ =>
     if !(gridsClose (gOf 0) (gOf 1)) then .error "ValueError:grids-differ"
-    else .ok (sampleFast ((List.range d).map fun a => analyticOpFast a (nOf a) (gOf a).size (gridFn (gOf a))) T)
+    else .ok (sampleFast (linalgOpsFast ns grids) T)
   let direct : Unit → Except String ND := fun _ =>
-    .ok (sampleFast ((List.range d).map fun a =>
-      directOpFast d a (nOf a) (gOf a).size (het == hetKey d a) (gridFn (gOf a))) T)
+    .ok (sampleFast (directOpsFast het ns grids) T)
   let admix : Unit → Except String ND := fun _ =>
     .ok (ND.ofFn (ns.map (· + 1))
       (admixND d ns (grids.map fun g => (g.size, gridFn g)) (propsFn p d) T.get))
@@ -313,9 +339,6 @@ def fromPhiInb (het : String) (force : Bool) (ns : List Nat) (grids : List (Arra
         else if (List.range d).any (fun a => ploidys.getD a 0 = 0) then .error "ZeroDivisionError"
         else if (List.range d).any (fun a => ns.getD a 0 % ploidys.getD a 1 ≠ 0) then .error "ValueError:ploidy"
         else
-          let ops := (List.range d).map fun a =>
-            inbOpFast d a (ns.getD a 0) (ploidys.getD a 1) (grids.getD a #[]).size (inbFClamp (Fs.getD a 0))
-              (het == inbHetKey d a) (gridFn (grids.getD a #[]))
-          .ok (f, (grids.getD 0 #[]).getD 1 0, sampleFast ops T)
+          .ok (f, (grids.getD 0 #[]).getD 1 0, sampleFast (inbOpsFast het ns grids Fs ploidys) T)
 
 end DadiVerif.FromPhi
